@@ -14,6 +14,7 @@ CONSTANTS
   RegKeys = {"k1", "k2"}
   RegWindows = {"ok", "expired", "notYet"}
   RegUsages = {"client", "server"}
+  RegUsagesOk = {"unknown", "any", "code", "clientUnk", "serverUnk"}
   RegOthers = {TRUE}
   TwoCNs = {TRUE}
   Routes = {"manifest", "lstatus", "sstatus", "events", "logs", "shell"}
